@@ -227,6 +227,20 @@ def run(chk: Check, model):
             bad.append(str(ex))
     chk.add("C15.estimator", "zero-spread data is deterministic for every mean", ok and not bad, f"is_deterministic = {T.show(isdet)[:160]} deviates at {bad[:3]} (constant data, incl. all zeros, must be "
             "classified deterministic; spread data must not)", chk.loc(fi))
+    # the standardisation of the data and _rescale are inverse to each other: the exported parameters are in the units of the data
+    STD, MEAN = S("STD"), S("MEAN")
+    canon = {T.mk_call("data.std", []): STD, T.mk_call("jax.numpy.std", [S("data")]): STD, T.mk_call("data.mean", []): MEAN, T.mk_call("jax.numpy.mean", [S("data")]): MEAN}
+    norm = T.subst(r.attr("self", "_data_norm"), canon)
+    for c in [x[1] for x in T.walk(norm) if x[0] == "ite"]:
+        norm = T.assume(norm, c, False) if T.assume(norm, c, False) != S("data") else T.assume(norm, c, True)
+    # max(std, eps) with eps not above the deterministic threshold is std for every data set that is standardised at all
+    for mx in [x for x in T.walk(norm) if x[0] == "max" and STD in x[1]]:
+        others = [T.const_value(y) for y in mx[1] if y != STD]
+        if all(o is not None and o <= T.F(1, 10 ** 7) for o in others):
+            norm = T.subst(norm, {mx: STD})
+    back = T.add(T.mul(norm, T.subst(r.attr("self", "_std"), canon)), T.subst(r.attr("self", "_mean"), canon))
+    chk.add("C15.estimator", "standardisation and _rescale are inverse (data * std + mean)", back == S("data"), f"standardised data = {T.show(norm)[:160]}; mapped back with the stored std / mean it "
+            f"gives {T.show(back)[:160]}, expected the data (otherwise the exported mixture is not in the units of the data)", chk.loc(fi))
     fi, ev, r = _ev(model, "gmm_estimator.GMMEstimator.get_dist")
     chk.used(fi.qualname)
     ret = r.ret
